@@ -22,6 +22,8 @@
 //struct _asm_context;
 //typedef struct _asm_context AsmContext;
 
+#define MAX_NESTED_INCLUDES 64
+
 typedef struct _token_buffer
 {
   const char *code;
